@@ -12,10 +12,10 @@ RULE = ("typed random expression trees (depth <= 6 quick / <= 10 thorough) over 
 ASSUMPTIONS = ["hardware IEEE-754 arithmetic equals Python's float arithmetic and math.fmod", "see C09 for number printing"]
 default_compare = lambda m, i: C.compare_run(m, i, line=True)
 
-PRELUDE = ('নাম ক = ৫;\nনাম খ = "পা";\nনাম গ = সত্য;\nনাম ঘ = [১, ২];\nনাম ঙ = ২.৫;\nনাম চ = [];\n'
+PRELUDE = ('নাম ক = ৫;\nনাম খ = "পা";\nনাম গ = সত্য;\nনাম ঘ = [১, ২];\nনাম ঙ = ২.৫;\nনাম চ = []; নাম ছ = ০.১; নাম জ = ৯০০৭১৯৯২৫৪৭৪০৯৯২;\n'
            'ফাং দ্বিগুণ(x) { ফেরত x * ২; } ফেরত;\nফাং যোগ(a, b) { ফেরত a + b; } ফেরত;\nফাং উল্টো(b) { ফেরত !b; } ফেরত;\n')
 VARS = {"ক": ("num", 5.0), "খ": ("str", "পা"), "গ": ("bool", True), "ঘ": ("list", 1, [("num", 1.0), ("num", 2.0)]),
-        "ঙ": ("num", 2.5), "চ": ("list", 2, [])}
+        "ঙ": ("num", 2.5), "চ": ("list", 2, []), "ছ": ("num", 0.1), "জ": ("num", 9007199254740992.0)}
 PRELUDE_LINES = PRELUDE.count("\n")
 
 
@@ -149,7 +149,7 @@ class ExprGen:
         if ty == "num":
             return r.choice([G.num(0), G.num(1), G.num(2), G.num(3), G.num(7), G.num(10), G.num("0.1"), G.num("0.5"),
                              G.num("2.25"), G.num("9007199254740993"), G.num("1" + "0" * 300), G.num(100), G.num(-3), G.num("-0.5"),
-                             G.var("ক"), G.var("ঙ"), G.un("-", G.num(0))])
+                             G.var("ক"), G.var("ঙ"), G.un("-", G.num(0)), G.var("ছ"), G.var("জ"), G.num("0.2"), G.num("0.3")])
         if ty == "bool":
             return r.choice([G.b(True), G.b(False), G.var("গ")])
         if ty == "str":
@@ -259,6 +259,21 @@ def cases(rng, tier, stats):
                         want = "TYPEERROR"
                     src = PRELUDE + G.render(G.toks_stmt(("print", e)), "minimal") + "\n"
                     out.append(C.Case("op-pair", ["RUN " + C.hx(src)], default_compare, oracle, info={"src": src, "want": want}))
+    # rounding-sensitive chains: `x o1 a o2 b` is `(x o1 a) o2 b` — double arithmetic is not associative, so any
+    # re-association (constant folding of the literal tail, operand reordering) shows on these values.  The leftmost operand
+    # comes from every source (variable, call, group, literal), the two others are literals
+    lefts = [G.var("ছ"), G.var("জ"), G.call("দ্বিগুণ", G.num("0.05")), G.grp(G.var("ছ")), G.num("0.1"), G.bin_("*", G.var("ছ"), G.num(1))]
+    tails = [(G.num("0.2"), G.num("0.3")), (G.num(1), G.num(1)), (G.num("0.7"), G.num("0.1")), (G.num(3), G.num("0.3")), (G.num("1" + "0" * 16), G.num(1))]
+    nr = 0
+    for x in lefts:
+        for (a, b_) in tails:
+            for o1, o2 in (("+", "+"), ("+", "-"), ("-", "+"), ("-", "-"), ("*", "*"), ("*", "/"), ("/", "*"), ("/", "/")):
+                for e in (G.bin_(o2, G.bin_(o1, x, a), b_), G.bin_("==", G.bin_(o2, G.bin_(o1, x, a), b_), G.bin_(o2, G.grp(G.bin_(o1, x, a)), b_))):
+                    want = render_val(Eval().ev(e))
+                    src = PRELUDE + G.render(G.toks_stmt(("print", e)), "minimal") + "\n"
+                    out.append(C.Case("rounding-chain", ["RUN " + C.hx(src)], default_compare, oracle, info={"src": src, "want": want}))
+                    nr += 1
+    stats["rounding_chains"] = nr
     stats["outcomes"] = hist
     stats["operators_per_tree"] = ops_hist
     stats["op_pair_table"] = len(ops) * len(ops) * 6
